@@ -34,6 +34,8 @@ pub struct O {
     pub decodes: nat,                          // how many messages have been decoded
     pub recvs: Seq<(int, RecvKind)>,           // platform receives: (receiver, kind), in order
     pub got: Option<(Seq<u8>, Seq<OsOpaqueIpcChannel>, Seq<OsIpcSharedMemory>)>,   // what the latest successful platform receive returned
+    pub sends: Seq<(int, Seq<u8>, nat, nat)>,  // platform sends: (sender, bytes, number of channels, number of regions), in order
+    pub last_send_ok: bool,                    // ... and whether the latest one succeeded
     pub failed: nat,                           // platform receives that returned an error
     pub last_ipc_err: Option<IpcError>,        // ... and the latest such error (blocking receive)
     pub last_try_err: Option<TryRecvError>,    // ... (non-blocking / timed receive)
@@ -110,3 +112,18 @@ impl OsIpcReceiver {
 // serde's traits (stand-ins, D6): only mentioned in where clauses here
 pub trait Serialize {}
 pub trait Deserialize<'de>: Sized {}
+
+pub struct OsIpcChannel { pub _p: () }
+pub struct IpcBytesSender { pub os_sender: OsIpcSender }
+impl OsIpcSender {
+    // platform send (unit U2)
+    #[verifier::external_body]
+    pub fn send(&self, data: &[u8], channels: Vec<OsIpcChannel>, shared_memory_regions: Vec<OsIpcSharedMemory>, Tracked(o): Tracked<&mut O>) -> (r: Result<(), UnixError>)
+        ensures same_oneshot(*old(o), *final(o)), final(o).decodes == old(o).decodes, final(o).recvs == old(o).recvs, final(o).got == old(o).got, final(o).failed == old(o).failed,
+                final(o).sends == old(o).sends.push((self.xid, data@, channels@.len() as nat, shared_memory_regions@.len() as nat)),
+                final(o).last_send_ok == (r is Ok),
+    { unimplemented!() }
+}
+// io::Error::from(UnixError) (From impl of the platform module)
+#[verifier::external_body]
+pub fn unix_error_to_io(e: UnixError) -> (r: IoError) { unimplemented!() }
